@@ -364,6 +364,28 @@ func init() {
 			return "", err
 		}
 		sb.WriteString("\ndef bucketBuilderWriteCalls : List String := " + LeanStrList(CallSeq(FindFunc(tbb, "TrieBucketBuilder", "Write"))) + "\n")
+		// round 12: the whole body of TrieBucketBuilder.Write, statement by statement (block count from
+		// len/blockSize and len%blockSize, the slice bounds of every block): Model/TrieBucket.lean
+		// `numBlocksGo` / `blockBounds` / `blocksLoop` mirror exactly these statements
+		{
+			fd := FindFunc(tbb, "TrieBucketBuilder", "Write")
+			if fd == nil || fd.Body == nil {
+				return "", fmt.Errorf("TrieBucketBuilder.Write not found")
+			}
+			var out []string
+			stmts(fd.Body.List, &out)
+			sb.WriteString("\ndef bucketBuilderWriteStmts : List String := " + LeanStrList(out) + "\n")
+		}
+		// round 12: TrieBucket.CollectKVs and TrieBucket.Unmarshal, statement by statement
+		for _, d := range []struct{ fn, name string }{{"CollectKVs", "collectKVsStmts"}, {"Unmarshal", "bucketUnmarshalStmts"}} {
+			fd := FindFunc(tb, "TrieBucket", d.fn)
+			if fd == nil || fd.Body == nil {
+				return "", fmt.Errorf("TrieBucket.%s not found", d.fn)
+			}
+			var out []string
+			stmts(fd.Body.List, &out)
+			sb.WriteString("\ndef " + d.name + " : List String := " + LeanStrList(out) + "\n")
+		}
 		mg, err := parse("index/v1/index_kv_merger.go")
 		if err != nil {
 			return "", err
